@@ -14,7 +14,7 @@ for f in ("patch.diff", "demo.py", "demo.c", "notes.md"):
 cf = os.path.join(src, "confirm_mine.txt") if os.path.exists(os.path.join(src, "confirm_mine.txt")) else os.path.join(src, "confirm.txt")
 conf = open(cf).read().strip() if os.path.exists(cf) else ""
 notes = open(os.path.join(src, "notes.md")).read() if os.path.exists(os.path.join(src, "notes.md")) else ""
-meta = {"property": pid, "id": "%s_%s" % (pid, keep), "round": 3 if "seed3" in base else (2 if "seed2" in base else 1),
+meta = {"property": pid, "id": "%s_%s" % (pid, keep), "round": 4 if "seed4" in base else 3 if "seed3" in base else (2 if "seed2" in base else 1),
         "needs_to_manifest": notes[:1500],
         "confirmed": conf,
         "what_i_ran": ["scratch worktree /tmp/seed/wt_confirm (confirm.sh): build pristine, demo.py (rc 0), git apply patch.diff + rebuild, demo.py (rc != 0), full pytest suite (873 passed, same failures as baseline)",
